@@ -94,7 +94,7 @@ once_cluster = S.stream_once_cluster
 DIRECTED = [S.stream_once_cluster, S.stream_once_cluster, S.stream_once_hidden, S.stream_idle_middle, S.stream_idle_middle,
             S.stream_randref_nicks, S.stream_once_cluster_randref, S.stream_once_same_table_nick_order,
             S.stream_history_rows_hold_once_refs, S.stream_history_rows_hold_once_refs,
-            S.stream_once_same_table_nick_order, S.stream_randref_hidden_child, S.stream_once_nick_like_once_table, S.stream_once_after_lookup, S.stream_once_idle_first]
+            S.stream_once_same_table_nick_order, S.stream_randref_hidden_child, S.stream_once_nick_like_once_table, S.stream_once_after_lookup, S.stream_once_idle_first, S.stream_constant_vars, S.stream_constant_vars]
 
 
 def generate(rng, tier):
